@@ -228,8 +228,25 @@ class xcube:
                     bucket["start"] = start
 
         if self.parallel:
+            stopped = []
+
+            def fill_one_cube_in_pool(nested_coords):
+                # The pool runs each chunk of tasks as list(map(func, chunk)),
+                # which takes a StopIteration for the end of the chunk and
+                # carries on. Keep such an interrupt and re-raise it below.
+                try:
+                    fill_one_cube(nested_coords)
+                except StopIteration as exc:
+                    stopped.append(exc)
+                    raise RuntimeError("interrupted by %r" % (exc,))
+
             with closing(self.pool_class(self.poolsize)) as pool:
-                pool.map(fill_one_cube, self.product)
+                try:
+                    pool.map(fill_one_cube_in_pool, self.product)
+                except RuntimeError:
+                    if stopped:
+                        raise stopped[0]
+                    raise
         else:
             # The only reason to _not_ multithread this is the extra overhead;
             # for example, if there's only one region anyway, or there are a handful
